@@ -13,6 +13,8 @@ enum Case {
     Sym { cid: Cid, i: usize },
     /// sequences of length n at slice offset s (owned fresh, owned copied from that offset)
     Shaped { cid: Cid, n: usize, s: usize },
+    /// a long sequence (4..16 words): two patterns
+    Long { cid: Cid, n: usize, s: usize },
     /// every sequence of length n starting with symbol `first`
     All { cid: Cid, n: usize, first: u8 },
 }
@@ -40,12 +42,17 @@ fn gen(t: Tier, _seed: u64, emit: &mut dyn FnMut(Case)) {
                 emit(Case::Shaped { cid, n, s });
             }
         }
+        for n in long_lengths(cid.bits()) {
+            for s in [0usize, 1, noff(cid.bits()) - 1] {
+                emit(Case::Long { cid, n, s });
+            }
+        }
     }
 }
 
 fn run(c: &Case, out: &mut Out) {
     match c {
-        Case::Sym { cid, .. } | Case::Shaped { cid, .. } | Case::All { cid, .. } => match cid {
+        Case::Sym { cid, .. } | Case::Shaped { cid, .. } | Case::All { cid, .. } | Case::Long { cid, .. } => match cid {
             Cid::MDna => run_g::<MDna>(c, out),
             Cid::MIupac => run_g::<MIupac>(c, out),
             _ => out.violation("MACHINERY/not-masked", format!("{cid:?}")),
@@ -243,6 +250,11 @@ fn run_g<A: Sx>(c: &Case, out: &mut Out) {
     let m = alphabet::<A>().len();
     match c {
         Case::Sym { i, .. } => sym_case::<A>(*i, out),
+        Case::Long { n, s, .. } => {
+            for variant in 0..2 {
+                seq_one::<A>(&sp, &syms::<A>(&bg(*n, m, 310 + variant, out.seed)), *s, out);
+            }
+        }
         Case::Shaped { n, s, .. } => {
             let seed = out.seed;
             pfamily(*n, m, seed, &mut |idx| seq_one::<A>(&sp, &syms::<A>(idx), *s, out));
